@@ -117,8 +117,12 @@ RLRecv(topo, pkt, srcChan, dstChan) ==
 (***************************************************************************)
 (* Journeys: a route is a sequence of hops [L, from].                      *)
 (***************************************************************************)
-RouteNames == {"ab", "ab-ba", "ab-ba2", "ab-bc", "ab-bc-cb", "ab-bc-cb-ba", "ab-ba2-ab2", "b:bc-cb", "b:ba-ab2"}
-H(L, from) == [L |-> L, from |-> from]
+\* a hop is [L, from, m]; m = "ok", "badrcv" (the receiver address is invalid: the receive ends in an error
+\* acknowledgement) or "overdraw" (the sender asks for more than it holds: the transfer is rejected)
+RouteNames == {"ab", "ab-ba", "ab-ba2", "ab-bc", "ab-bc-cb", "ab-bc-cb-ba", "ab-ba2-ab2", "b:bc-cb", "b:ba-ab2",
+               "ab-badrcv", "ab-overdraw", "ab-ba-badrcv"}
+H(L, from) == [L |-> L, from |-> from, m |-> "ok"]
+HM(L, from, m) == [L |-> L, from |-> from, m |-> m]
 RouteOf(r) ==
     CASE r = "ab"          -> << H("AB", "A") >>
       [] r = "ab-ba"       -> << H("AB", "A"), H("AB", "B") >>
@@ -129,6 +133,9 @@ RouteOf(r) ==
       [] r = "ab-ba2-ab2"  -> << H("AB", "A"), H("AB2", "B"), H("AB2", "A") >>
       [] r = "b:bc-cb"     -> << H("BC", "B"), H("BC", "C") >>
       [] r = "b:ba-ab2"    -> << H("AB", "B"), H("AB2", "A") >>
+      [] r = "ab-badrcv"   -> << HM("AB", "A", "badrcv") >>
+      [] r = "ab-overdraw" -> << HM("AB", "A", "overdraw") >>
+      [] r = "ab-ba-badrcv" -> << H("AB", "A"), HM("AB", "B", "badrcv") >>
 Origin(r) == RouteOf(r)[1].from
 
 \* journey state: the holding and the escrowed coins per channel end "L@c"
@@ -140,8 +147,10 @@ End(L, c) == L \o "@" \o c
 HopResult(topo, J, hop) ==
     LET src == hop.from  dst == Other(hop.L, src)
         sc == topo[hop.L][src]  dc == topo[hop.L][dst]
-        s  == BankSend(topo, J.h, sc)
-        r  == BankRecv(topo, s.pkt, sc, dc, EscOf(J, End(hop.L, dst)))
+        s0 == BankSend(topo, J.h, sc)
+        s  == [s0 EXCEPT !.ok = @ /\ hop.m # "overdraw"]
+        r0 == BankRecv(topo, s.pkt, sc, dc, EscOf(J, End(hop.L, dst)))
+        r  == [r0 EXCEPT !.ok = @ /\ hop.m # "badrcv"]
         escAfterSend == IF s.burn THEN J.esc
                         ELSE [e \in (DOMAIN J.esc) \cup {End(hop.L, src)} |-> IF e = End(hop.L, src) THEN EscOf(J, e) \cup {s.coin} ELSE J.esc[e]]
     IN [sendOk |-> s.ok, sendCoin |-> s.coin, sendChan |-> sc, rlSend |-> RLSend(topo, s.pkt),
